@@ -342,7 +342,13 @@ func (p *prov) val0(v ssa.Value) labelSet {
 	case *ssa.FreeVar:
 		return p.freeVar(x, false)
 	case *ssa.Global:
-		return lbl("GlobalAddr:"+x.Name(), p.where(v))
+		// the address of a package-level variable: memory of that variable
+		if p.h.global != nil {
+			if l, ok := p.h.global(x); ok {
+				return l
+			}
+		}
+		return lbl("Global:"+x.Name(), p.where(v))
 	case *ssa.Function:
 		return lbl("Func", p.where(v))
 	case *ssa.BinOp:
